@@ -26,7 +26,7 @@ class Inapplicable(Exception):
 GEOMS = ("affine", "general", "p2", "manifold")
 
 
-def make_mesh(cell, geom):
+def make_mesh(cell, geom, tp=False):
     tdim = TDIM[cell]
     if geom == "manifold":
         if tdim > 2 or cell == "prism":
@@ -40,14 +40,29 @@ def make_mesh(cell, geom):
         gdim, deg = tdim, 1
     else:
         gdim, deg = tdim, 1
-    ce = basix.ufl.element("P", cell, deg, shape=(gdim,))
+    if tp:
+        ce = tp_element(cell, deg, shape=(gdim,))
+    else:
+        ce = basix.ufl.element("P", cell, deg, shape=(gdim,))
     return ufl.Mesh(ce), gdim, deg
+
+
+def tp_element(cell, degree, shape=None):
+    """Tensor-product-ordered Lagrange element (the only kind sum factorisation supports)."""
+    e = basix.ufl.wrap_element(basix.create_tp_element(basix.ElementFamily.P, getattr(basix.CellType, cell), degree, basix.LagrangeVariant.gll_warped))
+    return e if shape is None else basix.ufl.blocked_element(e, shape=shape)
 
 
 # ---------------------------------------------------------------------------------------------------
 # elements
 # ---------------------------------------------------------------------------------------------------
-def make_element(name, cell, gdim):
+def make_element(name, cell, gdim, tp=False):
+    if tp:
+        if name in ("P1", "P2", "P3"):
+            return tp_element(cell, int(name[1]))
+        if name in ("vP1", "vP2"):
+            return tp_element(cell, int(name[2]), shape=(gdim,))
+        raise Inapplicable("only tensor-product Lagrange elements in tensor-product mode")
     el = basix.ufl.element
     tdim = TDIM[cell]
     simplex = cell in SIMPLEX
@@ -144,16 +159,19 @@ def build(cfg) -> Built:
         raise Inapplicable("interior facets of prisms unsupported")
     if cell == "interval" and itype == "dP" and False:
         pass
-    mesh, gdim, cdeg = make_mesh(cell, geom)
+    tp = bool(cfg.get("tp"))
+    if tp and cell not in ("quadrilateral", "hexahedron"):
+        raise Inapplicable("tensor-product elements on quadrilaterals/hexahedra only")
+    mesh, gdim, cdeg = make_mesh(cell, geom, tp)
     B = Built()
     B.mesh, B.cell, B.gdim, B.cdeg = mesh, cell, gdim, cdeg
     tname, uname = cfg.get("test", "P1"), cfg.get("trial", "P1")
     if itype == "dP" and (tname in DISCONTINUOUS or uname in DISCONTINUOUS) and not cfg.get("allow_rejected"):
         raise Inapplicable("vertex integrals of discontinuous elements are rejected by FFCx")
-    Vt = ufl.FunctionSpace(mesh, make_element(tname, cell, gdim))
-    Vu = ufl.FunctionSpace(mesh, make_element(uname, cell, gdim))
-    V1 = ufl.FunctionSpace(mesh, basix.ufl.element("P", cell, 1))
-    V2 = ufl.FunctionSpace(mesh, basix.ufl.element("P", cell, 2))
+    Vt = ufl.FunctionSpace(mesh, make_element(tname, cell, gdim, tp))
+    Vu = ufl.FunctionSpace(mesh, make_element(uname, cell, gdim, tp))
+    V1 = ufl.FunctionSpace(mesh, tp_element(cell, 1) if tp else basix.ufl.element("P", cell, 1))
+    V2 = ufl.FunctionSpace(mesh, tp_element(cell, 2) if tp else basix.ufl.element("P", cell, 2))
     f = ufl.Coefficient(V1)
     g = ufl.Coefficient(V2)
     B.coefficients = {"f": f, "g": g}
